@@ -103,14 +103,9 @@ class Sched:
         return c.name if c is not None else "main"
 
     def ctx_site(self):
-        f = sys._getframe(1)
-        while f is not None:
-            fn = f.f_code.co_filename
-            i = fn.find("/httpcore/")
-            if i != -1:
-                return fn[i + len("/httpcore/"):] + ":" + f.f_code.co_name
-            f = f.f_back
-        return None
+        from .aloop import stack_site
+
+        return stack_site(sys._getframe(1))
 
     # -- scheduling -----------------------------------------------------------------
     def _hook_change(self):
